@@ -995,6 +995,6 @@ func init() {
 		Run:            c11Run,
 		Replay:         c11Replay,
 		QuickBudget:    150 * time.Second,
-		ThoroughBudget: 15 * time.Minute,
+		ThoroughBudget: 8 * time.Minute,
 	})
 }
